@@ -101,6 +101,9 @@ class SimBus:
                 res = self.fault(frame)
                 if res is not None:
                     out = list(res)
+                    for f in out:
+                        if f is not frame:
+                            self.log.append(f)      # what was really delivered instead / in addition
         for f in out:
             # a fault plan may emit frames on behalf of another station (f.src names it)
             origin = src if f.src == src.name else self._by_name(f.src)
